@@ -28,9 +28,11 @@ from simkit.driver import bump, new_result, shrink_list  # noqa: E402
 from simkit.fs import FaultPlan, FaultyPath, SimFS  # noqa: E402
 from simkit.loop import SimDeadlock, SimLoop, SimStepCap, run_inline  # noqa: E402
 from simkit.rng import Rng, digest  # noqa: E402
+from simkit.threads import SimLock, SimThreads  # noqa: E402
 
 import liquid  # noqa: E402
 import liquid.builtin.loaders.file_system_loader as fsl_mod  # noqa: E402
+import liquid.utils.lru_cache as lru_mod  # noqa: E402
 from liquid import (BoundTemplate, CachingChoiceLoader, CachingDictLoader,  # noqa: E402
                     CachingFileSystemLoader, ChoiceLoader, DictLoader, Environment,
                     FileSystemLoader, RenderContext)
@@ -238,6 +240,46 @@ class CachingSimLoader(CachingLoaderMixin, SimLoader):
         SimLoader.__init__(self, world, style)
 
 
+class TSCachingDictLoader(CachingLoaderMixin, DictLoader):
+    def __init__(self, templates, **kw):
+        super().__init__(thread_safe=True, **kw)
+        DictLoader.__init__(self, templates)
+
+
+class TSCachingFileSystemLoader(CachingLoaderMixin, FileSystemLoader):
+    def __init__(self, search_path, ext=None, **kw):
+        super().__init__(thread_safe=True, **kw)
+        FileSystemLoader.__init__(self, search_path=search_path, ext=ext)
+
+
+class TSCachingChoiceLoader(CachingLoaderMixin, ChoiceLoader):
+    def __init__(self, loaders, **kw):
+        super().__init__(thread_safe=True, **kw)
+        ChoiceLoader.__init__(self, loaders)
+
+
+class _SeqShim:
+    """What World needs of a loop when the clients are threads: a global event counter."""
+
+    def __init__(self, sim):
+        self.sim = sim
+        self.log = []
+
+    @property
+    def seq(self):
+        return self.sim.seq
+
+    def event(self, site, actor=None):
+        n = self.sim.next_seq()
+        self.log.append((n, site))
+        return n
+
+
+THREAD_TRACE = ("liquid/builtin/loaders/mixins.py", "liquid/utils/lru_cache.py", "liquid/loader.py",
+                "liquid/builtin/loaders/choice_loader.py", "liquid/builtin/loaders/dict_loader.py",
+                "liquid/builtin/loaders/file_system_loader.py", "liquid/builtin/loaders/caching_file_system_loader.py")
+
+
 def outcome_of(fn):
     try:
         return ("ok", fn())
@@ -301,12 +343,13 @@ class C23:
     ]
     REQUIRED_REACH = ["fault.uptodate_raised", "reach.hit", "reach.reload", "reach.evict", "reach.sync_during_async", "reach.ns_switch",
                       "reach.edit_in_flight", "reach.same_tick_edit", "reach.back_tick_edit",
-                      "fault.cancel_landed", "fault.store_notfound", "fault.store_oserror", "fault.fs_errno"]
+                      "fault.cancel_landed", "fault.store_notfound", "fault.store_oserror", "fault.fs_errno",
+                      "reach.thread_switch_inside_request", "reach.thread_lock_contended"]
 
     # -- generation ------------------------------------------------------------
     def gen(self, run_seed, tier):
         rng = Rng(run_seed, ("gen",))
-        config = "fault" if rng.chance(0.35) else "nofault"
+        config = rng.weighted([("fault", 35), ("nofault", 53), ("threads", 12)])
         kind = rng.weighted([("cdict", 2), ("cfs", 4), ("cchoice", 3), ("cmixin", 4)])
         ns_key = NS_KEY if rng.chance(0.6) else ""
         names = ["a", "b", "d/p", "c.txt"][: rng.randint(1, 4)]
@@ -343,8 +386,8 @@ class C23:
                 via = "both"
                 ctx_ns = rng.choice([u for u in NAMESPACES if u != ns])
             g = rng.weighted([(None, 4), ({}, 1), ({"g": "G%d" % rng.randint(1, 3)}, 4)])
-            op = {"op": "req", "mode": rng.choice(["sync", "async"]), "name": name, "ns": ns, "via": via,
-                  "globals": g}
+            op = {"op": "req", "mode": "sync" if config == "threads" else rng.choice(["sync", "async"]),
+                  "name": name, "ns": ns, "via": via, "globals": g}
             if ctx_ns is not None:
                 op["ctx_ns"] = ctx_ns
             if config == "fault" and op["mode"] == "async" and rng.chance(0.25):
@@ -382,8 +425,9 @@ class C23:
         return {
             "config": config, "loader": kind, "capacity": rng.randint(1, 4),
             "auto_reload": rng.chance(0.8), "ns_key": ns_key,
-            "thread_safe": kind == "cmixin" and rng.chance(0.3),
+            "thread_safe": config == "threads" or (kind == "cmixin" and rng.chance(0.3)),
             "uptodate": rng.weighted([("fs-like", 5), ("sync", 3), ("none", 1)]),
+            "switch_p": rng.choice([0.05, 0.3, 0.7]), "granularity": rng.choice(["line", "line", "opcode"]),
             "ext": ".liquid" if rng.chance(0.3) else None,
             "env_globals": {"site": "S"} if rng.chance(0.5) else {},
             "names": names, "realms": realms, "initial": initial, "clients": clients,
@@ -402,6 +446,17 @@ class C23:
         kind = sc["loader"]
         kw = dict(auto_reload=sc["auto_reload"], namespace_key=sc["ns_key"], capacity=sc["capacity"])
         root = w.fs.path("root")
+        if caching and sc["config"] == "threads":
+            # OS threads need the thread-safe map: the mixin composed with each base loader the
+            # documented way (the built-in Caching* classes use the plain map)
+            if kind == "cdict":
+                return TSCachingDictLoader(w.dict_realm, **kw)
+            if kind == "cfs":
+                return TSCachingFileSystemLoader(root, ext=sc["ext"], **kw)
+            if kind == "cmixin":
+                return CachingSimLoader(w, sc["uptodate"], thread_safe=True, **kw)
+            return TSCachingChoiceLoader([FileSystemLoader(root, ext=sc["ext"]), SimLoader(w, sc["uptodate"]),
+                                          DictLoader(w.dict_realm)], **kw)
         if kind == "cdict":
             return CachingDictLoader(w.dict_realm, **kw) if caching else DictLoader(w.dict_realm)
         if kind == "cfs":
@@ -465,7 +520,10 @@ class C23:
         try:
             with warnings.catch_warnings(record=True) as wlist:
                 warnings.simplefilter("always")
-                self._run_world(sc, w, res)
+                if sc["config"] == "threads":
+                    self._run_threads_world(sc, w, res)
+                else:
+                    self._run_world(sc, w, res)
             for x in wlist:
                 if "never awaited" in str(x.message):
                     bump(st, "warn.never_awaited")
@@ -830,6 +888,182 @@ class C23:
         res["digest"] = digest((loop.log, history))
         res["nontrivial"] = bool(flags["hit"] and (flags["reload"] or flags["evict"] or
                                                     flags["sync_during_async"] or flags["ns_switch"]))
+
+    # -- the same requests from OS threads (thread-safe map) ----------------------------------
+    def _run_threads_world(self, sc, w, res):
+        """Synchronous requests, edits and deletes from 1-5 real threads under the seeded baton
+        scheduler, pre-empted at every line (or instruction) of the loader modules and at every lock
+        operation.  Judged per request: never an exception other than TemplateNotFoundError; the
+        returned source belongs to the requested (namespace, name), honours delegate order and is a
+        version that was current during the request (or since the key was first requested where the
+        source cannot signal change).  Globals are NOT judged here: the cached template object is
+        shared by design, so another thread's request may legitimately re-assign them."""
+        st = res["stats"]
+        viol = res["violations"]
+        w.fs.mkdir("root")
+        for ns in map(nss, NAMESPACES):
+            for n in sc["names"]:
+                w.fs.write("root/%s/%s" % (ns, self._fs_rel(sc, n)), "[decoy|%s|%s|0]" % (ns, n), 0)
+                dict.__setitem__(w.dict_realm, "%s/%s" % (ns, n), "[decoy|%s|%s|0]" % (ns, n))
+        for ident in sc["initial"]:
+            self._apply_put(sc, w, ident, "next")
+        gran = sc.get("granularity", "line")
+        trace = THREAD_TRACE if gran == "line" else THREAD_TRACE[:4]
+        sim = SimThreads(Rng(sc["sched_seed"], ("tsched",)), switch_p=sc.get("switch_p", 0.3), trace_files=trace,
+                         step_cap=3_000_000, granularity=gran)
+        w.loop = _SeqShim(sim)
+        saved_lock = lru_mod.Lock
+        lru_mod.Lock = SimLock
+        SimLock.sim = None
+        history = []
+        first_req = {}
+        inside = [0]
+
+        def add(oracle, sig, detail):
+            viol.append({"oracle": oracle, "sig": sig, "detail": detail})
+        try:
+            env = Environment(extra=True, loader=self._build_loader(sc, w, True), globals=dict(sc["env_globals"]))
+            cache = env.loader.cache
+            cap = sc["capacity"]
+            SimLock.sim = sim
+
+            def cache_key_of(op):
+                if sc["ns_key"] and op["ns"] is not None:
+                    return "%s/%s" % (nss(op["ns"]), op["name"])
+                return op["name"]
+
+            def do_req(op):
+                name, ns, via, g = op["name"], op["ns"], op["via"], op["globals"]
+                kwargs = {}
+                if via in ("kw", "both") and ns is not None:
+                    kwargs[NS_KEY] = ns
+                if via == "ctx":
+                    kwargs["context"] = RenderContext(env.from_string(""), globals={NS_KEY: ns} if ns is not None else {})
+                elif via == "both":
+                    kwargs["context"] = RenderContext(env.from_string(""), globals={NS_KEY: op["ctx_ns"]})
+                inv = sim.next_seq()
+                ck = cache_key_of(op)
+                first_req.setdefault(ck, inv)
+                sw0 = sim.switches
+                if via.startswith("tag:"):
+                    wrapper = env.from_string("<{%% %s '%s' %%}>" % (via[4:], name), globals=g)
+                    data = {NS_KEY: ns} if ns is not None else {}
+                    got = outcome_of(lambda: wrapper.render(**data))
+                else:
+                    got = outcome_of(lambda: str(env.get_template(name, globals=g, **kwargs)))
+                ret = sim.next_seq()
+                if sim.switches != sw0:
+                    inside[0] += 1
+                bump(st, "req.sync")
+                bump(st, "req.via." + via)
+                history.append([op["uid"], inv, ret, via, name, ns, got[:2]])
+                cands = self._candidates(sc, name, ns)
+                if got[0] == "err":
+                    if got[1] != "TemplateNotFoundError":
+                        if (got[1] in ("FileNotFoundError", "OSError")
+                                and any(c[0] == "fs" and w.store.dead_sometime(c, inv, ret)
+                                        and w.store.alive_during(c, inv, ret) for c in cands)):
+                            # a delete landed between resolve and read of this very request: the
+                            # non-caching loader has the same check-then-open race (counted)
+                            bump(st, "relaxed.delete_raced_request")
+                            return
+                        add("errors", "errors:%s:thread:%s:%s" % (got[1], "tag" if via.startswith("tag:") else "direct",
+                                                                   sc["loader"]), {"op": op, "raised": got[1:]})
+                        return
+                    if all(w.store.dead_sometime(c, inv if _strict(c) else first_req[ck], ret) for c in cands):
+                        return
+                    add("errors", "errors:spurious-notfound:thread", {"op": op, "candidates": cands})
+                    return
+                m = TOKEN_RE.search(got[1] if isinstance(got[1], str) else "")
+                if not m:
+                    add("integrity", "integrity:no-token", {"op": op, "got": _brief(got)})
+                    return
+                oid = (m.group(1), m.group(2), m.group(3))
+                ver = int(m.group(4))
+                if oid not in cands:
+                    kindv = "wrong-namespace" if any(oid[2] == c[2] and oid[0] == c[0] for c in cands) else (
+                        "decoy" if oid[0] == "decoy" else "wrong-name")
+                    add("integrity", "integrity:%s:thread:%s" % (kindv, "tag" if via.startswith("tag:") else via),
+                        {"op": op, "resolved_to": oid, "expected": cands})
+                    return
+                lo = inv if _strict(oid) else first_req[ck]
+                alive = w.store.alive_during(oid, lo, ret)
+                ticks = {v["tick"] for v in alive}
+                acc = {v["k"] for v in alive}
+                if oid[0] == "fs":
+                    acc |= {v["k"] for v in w.store.versions(oid) if v["tick"] in ticks and v["born"] <= ret}
+                if ver not in acc:
+                    add("freshness", "freshness:stale:%s:thread:%s" % (oid[0], "strict" if _strict(oid) else "relaxed"),
+                        {"op": op, "got_version": ver, "acceptable": sorted(acc), "window": [lo, ret]})
+                    return
+                for c in cands[:cands.index(oid)]:
+                    if not w.store.dead_sometime(c, first_req[ck], ret):
+                        add("priority", "priority:lower-delegate:thread", {"op": op, "answered_from": oid,
+                                                                            "shadowed_by": c})
+                        return
+
+            def _strict(ident):
+                return bool(sc["auto_reload"] and (ident[0] == "fs" or (ident[0] == "sim" and sc["uptodate"] != "none")))
+
+            def client(c):
+                def body():
+                    for op in c["ops"]:
+                        sim.point("op")
+                        if viol:
+                            return
+                        k = op["op"]
+                        if k == "edit":
+                            self._apply_put(sc, w, op["ident"], op["mtime"])
+                        elif k == "delete":
+                            self._apply_delete(sc, w, op["ident"])
+                        elif k == "req":
+                            do_req(op)
+                return body
+            for c in sc["clients"]:
+                if c["ops"]:
+                    sim.spawn("c%d" % c["id"], client(c))
+            if sim.threads:
+                sim.run()
+            SimLock.sim = None
+            herr = [t for t in sim.threads if t.error is not None]
+            if herr:
+                raise RuntimeError("client thread harness error") from herr[0].error
+            if sim.aborted == "STEP-CAP":
+                raise RuntimeError("HARNESS-TIMEOUT: step cap reached in SimThreads")
+            if sim.aborted == "DEADLOCK":
+                add("liveness", "liveness:deadlock:thread", {"trace_tail": sim.trace[-20:]})
+            else:
+                try:
+                    n, items = len(cache), list(cache.items())
+                except Exception as e:  # noqa: BLE001
+                    add("cache", "cache:listing-raised:%s" % type(e).__name__, {"where": "end"})
+                    n, items = 0, []
+                if n > cap:
+                    add("cache", "cache:over-capacity", {"len": n, "capacity": cap, "where": "end of thread run"})
+                for k, t in items:
+                    m = TOKEN_RE.search(str(t)) if isinstance(t, BoundTemplate) else None
+                    if not m:
+                        add("cache", "cache:bad-entry", {"key": k, "value": repr(t)[:80]})
+                        continue
+                    ns, name = "", k
+                    if sc["ns_key"]:
+                        for u in map(nss, NAMESPACES):
+                            if k.startswith(u + "/"):
+                                ns, name = u, k[len(u) + 1:]
+                    if (m.group(1), m.group(2), m.group(3)) not in self._candidates(sc, name, ns or None):
+                        add("cache", "cache:foreign-entry", {"key": k, "holds": m.group(1, 2, 3)})
+        finally:
+            lru_mod.Lock = saved_lock
+            SimLock.sim = None
+        bump(st, "runs.threads")
+        bump(st, "runs.loader." + sc["loader"])
+        bump(st, "thread.switches", sim.switches)
+        bump(st, "reach.thread_switch_inside_request", inside[0])
+        bump(st, "reach.thread_lock_contended", sim.contended)
+        res["steps"] = sim.steps
+        res["isig"] = digest(sim.trace)
+        res["digest"] = digest((history, sim.trace))
+        res["nontrivial"] = bool(inside[0])
 
     # -- minimisation ------------------------------------------------------------
     def shrink(self, sc):
